@@ -735,12 +735,12 @@ theorem simpleRun_single (U : UData) (F : Font) (K : Consts) (fuel : Nat) (might
       simp only [decomposeCurrentCharacter, hg, Bool.not_true, Option.isNone_some, Bool.or_self,
         Bool.false_eq_true, ↓reduceIte]
 
-theorem round1_single (U : UData) (F : Font) (K : Consts) (fuel : Nat) (might always : Bool) (x : Info)
-    (flags : Nat) (as : Bool) :
-    round1 U F K fuel might always [x] flags as =
+theorem round1_single (U : UData) (F : Font) (K : Consts) (fuel : Nat) (might always : Bool) (out : List Info)
+    (x : Info) (flags : Nat) (as : Bool) :
+    round1 U F K fuel might always out [x] flags as =
       match decomposeCurrentCharacter U F K fuel might x flags with
       | none => none
-      | some (o, f) => some (o, f, as) := by
+      | some (o, f) => some (out ++ o, f, as) := by
   rw [round1]
   simp only [List.takeWhile_nil, List.dropWhile_nil]
   rw [simpleRun_single]
@@ -1377,42 +1377,99 @@ theorem dropWhile_all {α : Type} (p : α → Bool) (l : List α) (h : ∀ x ∈
     simp only [List.dropWhile_cons, h a List.mem_cons_self, ↓reduceIte]
     exact ih (fun x hx => h x (List.mem_cons_of_mem _ hx))
 
-/-- first round on one cluster `base + marks`: everything goes through `decompose_current_character`
-    (with `shortest = always_short_circuit`), and `all_simple` becomes false -/
-theorem round1_cluster (U : UData) (F : Font) (K : Consts) (fuel : Nat) (might always : Bool)
-    (s m : Info) (ms : List Info) (flags : Nat) (as : Bool)
-    (hm : ∀ x ∈ m :: ms, x.isMark = true) (hvs : ∀ x ∈ s :: m :: ms, U.isVS x.cp = false) :
-    round1 U F K fuel might always (s :: m :: ms) flags as =
+theorem takeWhile_append_stop {α : Type} (p : α → Bool) (l tl : List α) (h : ∀ x ∈ l, p x = true)
+    (ht : ∀ z ∈ tl.head?, p z = false) : (l ++ tl).takeWhile p = l ∧ (l ++ tl).dropWhile p = tl := by
+  induction l with
+  | nil =>
+    cases tl with
+    | nil => simp
+    | cons z tl => have := ht z (by simp); simp [this]
+  | cons a l ih =>
+    have ha := h a List.mem_cons_self
+    have := ih (fun x hx => h x (List.mem_cons_of_mem _ hx))
+    simp [ha, this.1, this.2]
+
+/-- **first round, one cluster `base + marks` without a variation selector, whatever follows it** (`tl`
+    starts with a non-mark or is empty): everything of the cluster goes through
+    `decompose_current_character` (with `shortest = always_short_circuit`), `all_simple` becomes false and the
+    round continues with `tl` untouched. -/
+theorem round1_cluster_then (U : UData) (F : Font) (K : Consts) (fuel : Nat) (might always : Bool)
+    (out : List Info) (s m : Info) (ms tl : List Info) (flags : Nat) (as : Bool)
+    (hm : ∀ x ∈ m :: ms, x.isMark = true) (htl : ∀ z ∈ tl.head?, z.isMark = false)
+    (hvs : ∀ x ∈ s :: m :: ms, U.isVS x.cp = false) :
+    round1 U F K fuel might always out (s :: m :: (ms ++ tl)) flags as =
       match decomposeRun U F K fuel always (s :: m :: ms) flags with
       | none => none
-      | some (o, f) => some (o, f, false) := by
+      | some (o, f) => round1 U F K fuel might always (out ++ o) tl f false := by
   rw [round1]
-  have h1 : (m :: ms).takeWhile (fun i => !i.isMark) = [] := by
+  have h1 : (m :: (ms ++ tl)).takeWhile (fun i => !i.isMark) = [] := by
     simp [hm m List.mem_cons_self]
-  have h2 : (m :: ms).dropWhile (fun i => !i.isMark) = m :: ms := by
+  have h2 : (m :: (ms ++ tl)).dropWhile (fun i => !i.isMark) = m :: (ms ++ tl) := by
     simp [hm m List.mem_cons_self]
-  simp only [h1]
+  have h34 := takeWhile_append_stop (fun i : Info => i.isMark) (m :: ms) tl hm htl
+  have h3 : (m :: (ms ++ tl)).takeWhile (fun i => i.isMark) = m :: ms := by simpa using h34.1
+  have hn : 1 + ((m :: (ms ++ tl)).takeWhile (fun i => i.isMark)).length = (s :: m :: ms).length := by
+    rw [h3]; simp only [List.length_cons]; omega
+  have htake : (s :: m :: (ms ++ tl)).take (s :: m :: ms).length = s :: m :: ms := by
+    have : s :: m :: (ms ++ tl) = (s :: m :: ms) ++ tl := by simp
+    rw [this, List.take_left]
+  have hdrop : (s :: m :: (ms ++ tl)).drop (s :: m :: ms).length = tl := by
+    have : s :: m :: (ms ++ tl) = (s :: m :: ms) ++ tl := by simp
+    rw [this, List.drop_left]
+  have h5 : (s :: m :: ms).any (fun i => U.isVS i.cp) = false := by
+    rw [List.any_eq_false]; intro x hx; simp [hvs x hx]
+  have hmc : multiCharCluster U F K fuel always (out ++ []) (s :: m :: (ms ++ tl))
+      (1 + ((m :: (ms ++ tl)).takeWhile (fun i => i.isMark)).length) flags =
+      match decomposeRun U F K fuel always (s :: m :: ms) flags with
+      | none => none
+      | some (o, f) => some (out ++ o, tl, f) := by
+    unfold multiCharCluster
+    rw [hn, htake, hdrop, h5]
+    simp only [Bool.false_eq_true, ↓reduceIte, List.append_nil]
+    cases decomposeRun U F K fuel always (s :: m :: ms) flags <;> rfl
   split
   · rename_i h; rw [h2] at h; cases h
   · rename_i z zs h
     rw [h2] at h
-    cases h
-    simp only [splitLast, simpleRun]
-    have h3 : (m :: ms).takeWhile (fun i => i.isMark) = m :: ms := takeWhile_all _ _ hm
-    have h4 : (m :: ms).dropWhile (fun i => i.isMark) = [] := dropWhile_all _ _ hm
-    rw [h3, h4]
-    unfold multiCharCluster
-    have h5 : (s :: m :: ms).any (fun i => U.isVS i.cp) = false := by
-      rw [List.any_eq_false]; intro x hx; simp [hvs x hx]
-    rw [h5]
-    simp only [Bool.false_eq_true, ↓reduceIte]
-    cases decomposeRun U F K fuel always (s :: m :: ms) flags with
-    | none => rfl
-    | some r =>
-      obtain ⟨o, f⟩ := r
-      simp only
-      rw [round1]
-      simp
+    have hz : z = m := (List.cons.inj h).1.symm
+    have hzs : zs = ms ++ tl := (List.cons.inj h).2.symm
+    subst hz hzs
+    simp only [h1, splitLast, simpleRun]
+    split
+    · rename_i hc
+      simp only [h1, splitLast] at hc
+      rw [hmc] at hc
+      cases hd : decomposeRun U F K fuel always (s :: z :: ms) flags with
+      | none => rfl
+      | some r => rw [hd] at hc; cases hc
+    · rename_i r hc
+      simp only [h1, splitLast] at hc
+      rw [hmc] at hc
+      cases hd : decomposeRun U F K fuel always (s :: z :: ms) flags with
+      | none => rw [hd] at hc; cases hc
+      | some r' =>
+        obtain ⟨o, f⟩ := r'
+        rw [hd] at hc
+        cases hc
+        rfl
+
+/-- first round on a buffer that is one cluster `base + marks` -/
+theorem round1_cluster (U : UData) (F : Font) (K : Consts) (fuel : Nat) (might always : Bool)
+    (s m : Info) (ms : List Info) (flags : Nat) (as : Bool)
+    (hm : ∀ x ∈ m :: ms, x.isMark = true) (hvs : ∀ x ∈ s :: m :: ms, U.isVS x.cp = false) :
+    round1 U F K fuel might always [] (s :: m :: ms) flags as =
+      match decomposeRun U F K fuel always (s :: m :: ms) flags with
+      | none => none
+      | some (o, f) => some (o, f, false) := by
+  have h := round1_cluster_then U F K fuel might always [] s m ms [] flags as hm (by simp) hvs
+  simp only [List.append_nil] at h
+  rw [h]
+  cases decomposeRun U F K fuel always (s :: m :: ms) flags with
+  | none => rfl
+  | some r =>
+    obtain ⟨o, f⟩ := r
+    simp only [List.nil_append]
+    rw [round1]
 
 theorem normalize_cluster (U : UData) (F : Font) (K : Consts) (fuel pref : Nat)
     (s m : Info) (ms : List Info) (flags : Nat)
